@@ -95,12 +95,23 @@ def sinkAfter (sink : Bytes) (c : Nat) (d : Bytes) : Bytes :=
   ((chunksOf c (d.length + 1) d).foldl (fun (acc : Bytes × Nat) piece => (writeAt acc.1 acc.2 piece, acc.2 + piece.length))
     (sink.take d.length, 0)).1
 
+/-! ## association lists (used for the object table, the B2 version table and the file table) -/
+def alookup {κ β : Type} [DecidableEq κ] : List (κ × β) → κ → Option β
+  | [], _ => none
+  | (k, v) :: l, n => if k = n then some v else alookup l n
+
+def aerase {κ β : Type} [DecidableEq κ] : List (κ × β) → κ → List (κ × β)
+  | [], _ => []
+  | (k, v) :: l, n => if k = n then aerase l n else (k, v) :: aerase l n
+
+def ainsert {κ β : Type} [DecidableEq κ] (l : List (κ × β)) (n : κ) (v : β) : List (κ × β) := (n, v) :: aerase l n
+
 /-! ## executable specification: association list -/
 abbrev MapStore := List (Name × Bytes)
 
-def MapStore.get (s : MapStore) (n : Name) : Option Bytes := (s.find? (·.1 = n)).map (·.2)
-def MapStore.erase (s : MapStore) (n : Name) : MapStore := s.filter (·.1 ≠ n)
-def MapStore.put (s : MapStore) (n : Name) (d : Bytes) : MapStore := (n, d) :: s.erase n
+def MapStore.get (s : MapStore) (n : Name) : Option Bytes := alookup s n
+def MapStore.erase (s : MapStore) (n : Name) : MapStore := aerase s n
+def MapStore.put (s : MapStore) (n : Name) (d : Bytes) : MapStore := ainsert s n d
 def MapStore.keys (s : MapStore) : List Name := s.map (·.1)
 def MapStore.abs (s : MapStore) : Spec := s.get
 /-- invariant: every key once -/
@@ -183,18 +194,19 @@ deriving Repr, DecidableEq
 /-- state of the B2 service: per file name its versions, newest first -/
 abbrev B2 := List (Name × List Ver)
 
-def B2.versions (s : B2) (n : Name) : List Ver := ((s.find? (·.1 = n)).map (·.2)).getD []
-def B2.setVersions (s : B2) (n : Name) (vs : List Ver) : B2 := (n, vs) :: s.filter (·.1 ≠ n)
-/-- what download / HEAD by name see: the newest version if it is an upload -/
-def B2.visible (s : B2) (n : Name) : Option Bytes :=
-  match s.versions n with
+def B2.versions (s : B2) (n : Name) : List Ver := (alookup s n).getD []
+def B2.setVersions (s : B2) (n : Name) (vs : List Ver) : B2 := ainsert s n vs
+/-- the newest version, if it is an upload -/
+def headUp : List Ver → Option Bytes
   | .up d :: _ => some d
   | _ => none
+/-- what download / HEAD by name see: the newest version if it is an upload -/
+def B2.visible (s : B2) (n : Name) : Option Bytes := headUp (s.versions n)
 def B2.abs (s : B2) : Spec := s.visible
 def B2.Inv (s : B2) : Prop := (s.map (·.1)).Nodup
 /-- names returned by `b2_list_file_names`: newest version is an upload -/
 def B2.liveNames (s : B2) : List Name :=
-  (s.filter (fun e => match e.2 with | .up _ :: _ => true | _ => false)).map (·.1)
+  (s.filter (fun e => (headUp e.2).isSome)).map (·.1)
 
 /-- `b2_hide_file` on the service: status, error code, new state -/
 def B2.hideFile (s : B2) (n : Name) : B2 × Option (Nat × String) :=
